@@ -178,7 +178,7 @@ def judge(sc: Scenario, case):
     got = {L: {} for L in rx}
     for L, r in rx.items():
         for f in r["frames"]:
-            pid = int(f.send_time) if f.send_time == int(f.send_time) else None
+            pid = f.pid
             if pid in sc.pubs:
                 got[L].setdefault(pid, []).append(f)
     pos = neg = 0
